@@ -122,6 +122,64 @@ def run(ctx, rep):
             got = [s.strip() for s in o[3:].split(" ; ")] if o.startswith("ok") else o
             if got != want:
                 rep.disagree(f"islands after migration: model {got} vs code {want}", {"line": line, **case})
+    parallel_partners(ctx, rep)
+
+
+def parallel_partners(ctx, rep):
+    """the partner every rank of a PARALLEL archipelago computes from the broadcast island order (`_get_migration_partner`, run
+    on the real class with a stand-in communicator whose bcast hands every rank the same order): nobody is its own partner, the
+    relation is symmetric, exactly R % 2 ranks sit out - and it is the model's `partner`"""
+    import os
+    import sys
+    stub = os.path.join(os.path.dirname(os.path.abspath(__file__)), "mpi_stub")
+    if stub not in sys.path:
+        sys.path.insert(0, stub)
+    try:
+        from bingo.evolutionary_optimizers.parallel_archipelago import ParallelArchipelago
+    except Exception as exc:
+        rep.extra["parallel_partners"] = f"not run: {exc!r}"
+        return
+    rng = ctx.rng
+
+    class FakeComm:
+        def __init__(self, order):
+            self.order = order
+
+        def bcast(self, x, root=0):
+            return list(self.order)
+    lines, meta = [], []
+    for t in range(ctx.n(300, 3000)):
+        R = rng.choice([1, 2, 3, 3, 4, 5, 6, 7, 9])
+        order = list(range(R))
+        rng.shuffle(order)
+        got = []
+        try:
+            for r in range(R):
+                pa = ParallelArchipelago.__new__(ParallelArchipelago)
+                pa.comm, pa.comm_rank, pa.comm_size, pa._num_islands = FakeComm(order), r, R, R
+                pa._shuffle_island_indices = lambda o=order: list(o)
+                p = pa._get_migration_partner()
+                got.append(-1 if p is None else int(p))
+        except Exception as exc:
+            rep.violate(f"_get_migration_partner raised {type(exc).__name__}: {exc} for the island order {order}", "C11:parallel-partner", {"order": order})
+            continue
+        case = {"order": order, "partners": got}
+        rep.case(("parpartner", tuple(order)), R > 1)
+        rep.count("parallel_partner_ranks", R)
+        bad = [r for r in range(R) if got[r] == r or (got[r] >= 0 and (got[r] >= R or got[got[r]] != r))]
+        if bad or sum(1 for p in got if p < 0) != R % 2:
+            rep.violate(f"parallel archipelago, broadcast island order {order}: the ranks compute the partners {got} (-1 = sits out): "
+                        f"{'rank %d is its own partner or its partner does not agree' % bad[0] if bad else 'wrong number of ranks sit out'}; "
+                        "the exchange then blocks or loses individuals", "C11:parallel-partner", case)
+        lines.append("parpartner ; " + " ".join(map(str, order)))
+        meta.append(case)
+    if ctx.driver_ok and lines:
+        outs = run_driver(lines)
+        rep.corr_cases = getattr(rep, "corr_cases", 0) + len(lines)
+        for line, o, case in zip(lines, outs, meta):
+            want = "partners=" + ",".join("-" if p < 0 else str(p) for p in case["partners"])
+            if not o.startswith(want + " "):
+                rep.disagree(f"parallel migration partners: model '{o}' vs code '{want}'", {"line": line, **case})
 
 
 def replay(ctx, rep, rp):
